@@ -31,7 +31,7 @@ def jobs(ctx):
              'reactor': [('store', 'b', 1000 if lag else 1, 2.0), ('store', 'a', 1001 if lag else 2, 3.0), ('stop',)],
              'oracles': ('c03', 'c04'), 'see_buckets': bool(lim), 'line_pattern': r'cache|reactor|sleep|BUCKET|settings'}
         p.update(lim)
-        b = deep if (li == 0 or ctx.thorough) else 1
+        b = deep if li == 0 else ctx.pick(1, 2)
         if li and not ctx.thorough and strat not in ('sorted', 'timesorted'):
           continue
         out.append((p, (b, fb)))
